@@ -448,11 +448,13 @@ fn replay_outcomes(idx: usize, case: &Value, n: usize) -> Value {
     let mut problems: Vec<String> = Vec::new();
     let mut observed: BTreeSet<String> = BTreeSet::new();
     let mut detail: BTreeSet<String> = BTreeSet::new();
+    let mut iterations: BTreeSet<u64> = BTreeSet::new();
     let mut rng = rand::rngs::StdRng::seed_from_u64(keys::seed() ^ idx as u64);
     let r = util::catch(|| {
         let mut problems = Vec::new();
         let mut observed = BTreeSet::new();
         let mut detail = BTreeSet::new();
+        let mut iters: BTreeSet<u64> = BTreeSet::new();
         for i in 0..n {
             // permute the insertion order of the facts every other run
             let mut blocks: Vec<Value> = prog["blocks"].as_array().unwrap().clone();
@@ -474,6 +476,9 @@ fn replay_outcomes(idx: usize, case: &Value, n: usize) -> Value {
             if case["small_facts"].as_bool().unwrap_or(false) {
                 limits.max_facts = 2;
             }
+            if let Some(mi) = case["max_iter"].as_u64() {
+                limits.max_iterations = mi;
+            }
             let mut a = match build_authorizer(&prog["authz"], &tok, limits) {
                 Ok(a) => a,
                 Err(e) => {
@@ -486,6 +491,15 @@ fn replay_outcomes(idx: usize, case: &Value, n: usize) -> Value {
             let r2 = a2.authorize();
             if format!("{r:?}") != format!("{r2:?}") {
                 detail.insert(format!("clone differs: {r:?} vs {r2:?}"));
+            }
+            // the number of passes is part of what a caller observes (Authorizer::iterations)
+            if r.is_ok() {
+                iters.insert(a.iterations());
+                if let Some(p) = case["passes"].as_u64() {
+                    if a.iterations() != p {
+                        problems.push(format!("OUTSIDE-SPEC: {} passes performed, the naive evaluation of the spec needs {}", a.iterations(), p));
+                    }
+                }
             }
             for r in [r, r2] {
                 let got = auth_result(&r);
@@ -514,22 +528,23 @@ fn replay_outcomes(idx: usize, case: &Value, n: usize) -> Value {
                 }
             }
         }
-        (problems, observed, detail)
+        (problems, observed, detail, iters)
     });
     match r {
-        Ok((p, o, d)) => {
+        Ok((p, o, d, it)) => {
             problems.extend(p);
             observed = o;
             detail = d;
+            iterations = it;
         }
         Err(p) => problems.push(format!("PANIC {p}")),
     }
     if !observed.is_subset(&allowed) {
         problems.push(format!("OUTSIDE-SPEC: observed outcomes {:?} but the spec allows only {:?}", observed, allowed));
     }
-    let nondet = detail.len() > 1;
+    let nondet = detail.len() > 1 || iterations.len() > 1;
     json!({"idx": idx, "ok": problems.is_empty(), "problems": problems, "observed": observed, "allowed": allowed,
-           "nondeterministic": nondet, "detail": detail})
+           "nondeterministic": nondet, "detail": detail, "iterations": iterations})
 }
 
 pub fn cmd_outcomes(input: &str, output: &str, n: usize) {
